@@ -13,7 +13,7 @@ V62 = (1 << 62) - 1
 
 
 class Takeover:
-    def __init__(self, sut_role="server", client_kw=None, server_kw=None, leaf="ed25519", script=None, now=0.0):
+    def __init__(self, sut_role="server", client_kw=None, server_kw=None, leaf="ed25519", script=None, now=0.0, session_ticket=None, server_conn_kw=None):
         """Runs a lossless handshake (plus an optional application warm-up `script(client, server, pump)`), then freezes the peer.
         Must be called inside endpoints.pinned()."""
         from aioquic.quic.connection import QuicConnection
@@ -28,10 +28,12 @@ class Takeover:
         else:
             skw["secrets_log_file"] = self.keylog
         self.ccfg = E.client_config(**ckw)
+        if session_ticket is not None:
+            self.ccfg.session_ticket = session_ticket
         self.scfg = E.server_config(leaf, **skw)
         self.client = QuicConnection(configuration=self.ccfg)
         self.client.connect(E.SERVER_ADDR, now=now)
-        self.server = QuicConnection(configuration=self.scfg, original_destination_connection_id=self.client.original_destination_connection_id)
+        self.server = QuicConnection(configuration=self.scfg, original_destination_connection_id=self.client.original_destination_connection_id, **(server_conn_kw or {}))
         self.wire = WireObserver(keylog=self.keylog)
         self.now = now
         self.sut = self.server if sut_role == "server" else self.client
@@ -163,6 +165,10 @@ class Takeover:
         """Acknowledge SUT packets (all received so far in the app space by default)."""
         if pns is None:
             pns = [v.pn for v in self.sut_packets if v.space == "app" and v.pn is not None]
+        f = self.ack_frame(pns)
+        return None if f is None else self.send_frames([f])
+
+    def ack_frame(self, pns):
         if not pns:
             return None
         ranges = []
@@ -171,7 +177,7 @@ class Takeover:
                 ranges[-1] = (n, ranges[-1][1])
             else:
                 ranges.append((n, n))
-        return self.send_frames([R.ack_frame_from_ranges(ranges, 0)])
+        return R.ack_frame_from_ranges(ranges, 0)
 
     def fire_timer(self, at_least=0.0, max_wait=None):
         t = self.sut.get_timer()
